@@ -135,8 +135,6 @@ def effective_cond(func, b):
     c = func.node(ci)
     if c is None:
         return None
-    if b.get('tk') in ('BinaryOperator',):
-        return c                      # short-circuit block: cond already is the left operand
     while True:
         x = c
         while x is not None and x['k'] in ('ParenExpr', 'ImplicitCastExpr', 'ExprWithCleanups') and x.get('c'):
